@@ -36,6 +36,157 @@ def fmt_spec(spec, failures, what):
     return ("0" if m.group(1) else " ", int(m.group(2)))
 
 
+class _NoEval(Exception):
+    pass
+
+
+def _eval_tm_statements(text, hour):
+    """Evaluate the C++ statements `text` (assignments to time_info.tm_hour/min/sec, if/else, ?:, simple local definitions)
+    for an initial tm_hour; tm_min / tm_sec start unknown. Returns the final (hour, min, sec)."""
+    toks = re.findall(r"[A-Za-z_][\w:.]*|\d[\d']*|==|!=|<=|>=|&&|\|\||[-+*/%<>=!?:;(){},&]", text)
+    pos = [0]
+    env = {"time_info.tm_hour": hour, "time_info.tm_min": None, "time_info.tm_sec": None}
+
+    def peek():
+        return toks[pos[0]] if pos[0] < len(toks) else None
+
+    def take(t=None):
+        x = peek()
+        if x is None or (t is not None and x != t):
+            raise _NoEval("expected %r, found %r" % (t, x))
+        pos[0] += 1
+        return x
+
+    def atom(live):
+        x = take()
+        if x == "(":
+            v = expr(live)
+            take(")")
+            return v
+        if x == "!":
+            v = atom(live)
+            return (not v) if live else None
+        if x == "-":
+            v = atom(live)
+            return -v if live else None
+        if re.fullmatch(r"\d[\d']*", x):
+            return int(x.replace("'", ""))
+        if x in ("true", "false"):
+            return x == "true"
+        if x in ("static_cast<int>",):
+            return atom(live)
+        if re.fullmatch(r"[A-Za-z_][\w:.]*", x):
+            if not live:
+                return None
+            if x not in env:
+                raise _NoEval("unknown name %s" % x)
+            if env[x] is None:
+                raise _NoEval("%s read before it is set" % x)
+            return env[x]
+        raise _NoEval("unexpected token %r" % x)
+
+    def arith(live):
+        v = atom(live)
+        while peek() in ("+", "-", "*"):
+            op = take()
+            w = atom(live)
+            if live:
+                v = v + w if op == "+" else (v - w if op == "-" else v * w)
+        return v
+
+    def cmp_(live):
+        v = arith(live)
+        if peek() in ("<", "<=", ">", ">=", "==", "!="):
+            op = take()
+            w = arith(live)
+            if live:
+                v = {"<": v < w, "<=": v <= w, ">": v > w, ">=": v >= w, "==": v == w, "!=": v != w}[op]
+        return v
+
+    def logic(live):
+        v = cmp_(live)
+        while peek() in ("&&", "||"):
+            op = take()
+            w = cmp_(live)
+            if live:
+                v = (v and w) if op == "&&" else (v or w)
+        return v
+
+    def expr(live):
+        c = logic(live)
+        if peek() == "?":
+            take("?")
+            a = expr(live and bool(c))
+            take(":")
+            b = expr(live and not bool(c))
+            return (a if c else b) if live else None
+        return c
+
+    def stmt(live):
+        x = peek()
+        if x == "{":
+            take("{")
+            while peek() != "}":
+                stmt(live)
+            take("}")
+            return
+        if x == "if":
+            take("if")
+            take("(")
+            c = expr(live)
+            take(")")
+            stmt(live and bool(c))
+            if peek() == "else":
+                take("else")
+                stmt(live and not bool(c))
+            return
+        # assignment or local definition: tokens up to '=' ; the last one is the target
+        lhs = []
+        while peek() not in ("=", None, ";"):
+            lhs.append(take())
+        take("=")
+        v = expr(live)
+        take(";")
+        if not lhs:
+            raise _NoEval("assignment without a target")
+        target = lhs[-1]
+        if target.startswith("time_info.") and target not in env:
+            raise _NoEval("field %s is modified (only hour/min/sec of the same day may be)" % target)
+        if len(lhs) > 1 and target.startswith("time_info."):
+            raise _NoEval("unexpected declaration of %s" % target)
+        if live:
+            env[target] = v
+
+    while peek() is not None:
+        stmt(True)
+    return env["time_info.tm_hour"], env["time_info.tm_min"], env["time_info.tm_sec"]
+
+
+def _noon_midnight_table(nm):
+    """[T, H1, H2, M, S, K] with: hour < T -> H1:M:S, else H2:M:S, same day, + K seconds; ([], reason) when the body is not
+    such a computation"""
+    if not nm:
+        return [], "function not found"
+    g = re.search(r"gmtime_rs\(\s*&timestamp\s*,\s*&time_info\s*\)\s*;", nm)
+    t = re.search(r"[^;{}]*timegm\(\s*&time_info\s*\)[^;]*;", nm)
+    k = re.search(r"return[^;]*\.count\(\)\s*\+\s*(\d+)\s*;", nm)
+    if not (g and t and k and g.end() <= t.start() < k.start()):
+        return [], "gmtime_rs / timegm / `count() + K` frame not found"
+    try:
+        res = [_eval_tm_statements(nm[g.end():t.start()], h) for h in range(24)]
+    except _NoEval as ex:
+        return [], str(ex)
+    if any(not isinstance(x, int) or isinstance(x, bool) for r in res for x in r):
+        return [], "a field is not set to a constant"
+    if len(set((m, s_) for _, m, s_ in res)) != 1:
+        return [], "minute/second differ between the branches: %s" % sorted(set(res))
+    hours = [h for h, _, _ in res]
+    steps = [i for i in range(1, 24) if hours[i] != hours[i - 1]]
+    if len(steps) != 1:
+        return [], "the hour set is not a two-valued step function of the hour: %s" % hours
+    return [steps[0], hours[0], hours[23], res[0][1], res[0][2], int(k.group(1))], ""
+
+
 def extract(repo, failures):
     out = {}
     src = strip_cpp_comments(read(repo, SFT))
@@ -154,15 +305,13 @@ def extract(repo, failures):
         failures.append("time: quarter-hour arithmetic `(t / P) * P + P` with one P not found")
     out["localPeriod"] = period
 
-    # 7. noon / midnight
+    # 7. noon / midnight: the fact that matters is "next boundary = H1:M:S when the hour is < T, else H2:M:S, of the same
+    # day, + K s". The statements between gmtime_rs and timegm are *evaluated* for every hour 0..23 (if/else, ?:, locals),
+    # so that any shape of the same computation extracts the same table and any change of the boundary changes it.
     nm = func_body(src, r"_next_noon_or_midnight_timestamp\s*\([^)]*\)\s*(?:noexcept)?\s*\{")
-    noon = []
-    m = re.search(r"tm_hour\s*<\s*(\d+)\s*\)\s*\{\s*time_info\.tm_hour\s*=\s*(\d+)\s*;\s*time_info\.tm_min\s*=\s*(\d+)\s*;\s*time_info\.tm_sec\s*=\s*(\d+)\s*;\s*\}\s*else\s*\{\s*time_info\.tm_hour\s*=\s*(\d+)\s*;\s*time_info\.tm_min\s*=\s*(\d+)\s*;\s*time_info\.tm_sec\s*=\s*(\d+)\s*;\s*\}", nm or "")
-    m3 = re.search(r"\.count\(\)\s*\+\s*(\d+)\s*;", nm or "")
-    if m and m3 and m.group(3) == m.group(6) and m.group(4) == m.group(7) and "gmtime_rs" in nm and "timegm" in nm:
-        noon = [int(m.group(1)), int(m.group(2)), int(m.group(5)), int(m.group(3)), int(m.group(4)), int(m3.group(1))]
-    else:
-        failures.append("time: noon/midnight arithmetic not found")
+    noon, why = _noon_midnight_table(nm)
+    if not noon:
+        failures.append("time: noon/midnight arithmetic not found (%s)" % why)
     out["noonMidnight"] = noon
 
     # 9. strftime buffer
